@@ -72,7 +72,13 @@ def _run_one(args):
             with contextlib.redirect_stdout(out):
                 with warnings.catch_warnings():
                     warnings.simplefilter("ignore")
-                    res = _MOD.run_case(cfg)
+                    if isinstance(cfg, dict) and cfg.get("kind") == "callorder":
+                        # call-order plane declared by the module (HISTORY): executed in fresh interpreters
+                        from mc.props import _hist_common as H
+                        hd = _MOD.HISTORY
+                        res = H.run_history(_MOD.ID, hd["prelude"], hd["labels"], cfg["seq"], hd["tol"])
+                    else:
+                        res = _MOD.run_case(cfg)
         finally:
             signal.alarm(0)
         if not isinstance(res, dict):
@@ -140,6 +146,11 @@ def run_property(modname, tier, seed, replay=None, workers=None):
         return _replay(mod, modname, replay)
 
     case_list = list(mod.cases(tier, seed))
+    hd = getattr(mod, "HISTORY", None)
+    if hd:
+        from mc.props import _hist_common as H
+        depth = hd.get("depth", {}).get(tier, 2)
+        H.spread(case_list, H.hist_cases(len(hd["labels"]), depth, tag="callorder"))
     n_cases = len(case_list)
     if n_cases == 0:
         print("HARNESS-ERROR: no cases enumerated")
@@ -271,10 +282,15 @@ def _report(mod, tier, seed, case_list, results, capped, wall):
         cov["traces_validated_against_impl"] = int(n_exec)
     if capped:
         cov["cap"] = "wall-clock budget hit; %d of %d cases completed" % (len(results), len(case_list))
+    co = [r for r in results if isinstance(r["cfg"], dict) and r["cfg"].get("kind") == "callorder"]
+    if co:
+        cov["call_order_plane"] = {"sequences_in_fresh_interpreters": len(co),
+                                   "calls": list(getattr(mod, "HISTORY", {}).get("labels", [])),
+                                   "interpreter_runs": int(sum(r.get("n", 0) for r in co))}
     extra = getattr(mod, "coverage_extra", None)
     if extra:
         try:
-            cov.update(extra(tier, seed, results))
+            cov.update(extra(tier, seed, [r for r in results if r not in co]))
         except Exception:
             cov["coverage_extra_error"] = traceback.format_exc()
     ev = {
